@@ -289,7 +289,7 @@ func TestC11_RoundTrips(t *testing.T) {
 		_ = os.MkdirAll(xdir, 0o755)
 		os.Setenv("VERIF_EXCHANGE_OUT", xdir)
 	}
-	runRapid(t, "C11_RoundTrips", nCases(25_000, 800_000), func(t *rapid.T) {
+	runRapid(t, "C11_RoundTrips", nCases(25_000, 250_000), func(t *rapid.T) {
 		h, shape := genC11Doc(t)
 		c := c11Case{H: h, SerMode: rapid.IntRange(0, 3).Draw(t, "sermode"), DeMode: rapid.IntRange(0, 3).Draw(t, "demode"), Shape: shape}
 		nh := rapid.IntRange(0, 4).Draw(t, "nhist")
